@@ -13,6 +13,10 @@ CHECKS = {
    text="TLC enumerates programs with subroutines from spec/Gen.tla per routine-signature catalogue entry (self/mutual/three-cycle recursion guarded by a count-down parameter, by-value and by-reference parameters incl. forwarded references, none/uint64/bytes results, routine-private variables, calls in statement and operand position); each is compiled for versions 4..10 x frame pointers x slot optimisation and TLC runs every distinct text on spec/AVM.tla for recursion depths 0..3 against the call semantics of spec/PyTealSem.tla; AVM.tla additionally checks at every retsub that exactly the declared results lie above an unchanged caller stack.",
    note="trusts callsub/retsub/proto/frame_dig/frame_bury semantics of AVM.tla; ABI-typed parameters are covered by the C06/C07/C09 checks, not here",
    tech="TLA+ refinement check (TLC): Gen-enumerated recursive programs replayed into PyTeal, emitted TEAL executed on the AVM spec vs source call semantics + retsub ghost invariants"),
+ "C03": dict(cat="model_checking", ref="5 C03",
+   text="Programs enumerated by TLC from spec/Gen.tla (optimiser-shaped alphabets: store-then-load pairs, non-adjacent loads, repeated stores, requested slot ids; control and loop alphabets; recursive routines) are compiled under every setting {scratch_slots} x {frame_pointers} x versions 2..10; TLC (differential part of spec/Refine.tla) runs all texts of a recipe on spec/AVM.tla over its context domain and requires equal verdict, return value, logs, writes, inner transactions and user-numbered slots, and - optimised vs unoptimised text of the same version and convention - equal stack snapshots at every routine exit.",
+   note="one OptimizeOptions object per setting is reused across compilations (as Router.compile_program does); trusts AVM.tla",
+   tech="TLA+ differential check (TLC): product of AVM runs of the same Gen-generated program under all option settings, exit-stack snapshots compared"),
  "C16": dict(cat="model_checking", ref="5 C16",
    text="All 35 factor-count combinations of WideRatio are replayed into PyTeal; TLC runs the emitted TEAL on spec/AVM.tla against the big-number meaning of WideRatio in spec/PyTealSem.tla: on a scaled 4-bit-word machine over every factor tuple (small counts) and on the 64-bit machine over boundary values. Exact result or failure, compared by TLC per (program, context).",
    note="trusts BigNat.tla (self-tested against Python integers at setup), the mulw/divmodw/cover/uncover semantics of AVM.tla, soundness of the scaled machine for width-generic code",
